@@ -245,7 +245,7 @@ impl Plurals {
         locale: &Key,
         key_path: &KeyPath,
     ) -> Result<ParsedValue> {
-        if let Some(count_arg) = args.get("var_count") {
+        if let Some(count_arg) = args.get(&*self.count_key.name) {
             return self.populate_with_count_arg(count_arg, args, foreign_key, locale, key_path);
         }
 
